@@ -104,6 +104,8 @@ TABLE = {
     "ti.tree.build_timestamp": (lambda v: (_is_int(v) or isinstance(v, float)) and v != 0, ["1417653911", None]),
     "ti.variant.id":     (lambda v: _is_str(v) and "-" not in v, ["a-b", None, 5]),
     "ti.variant.type":   (lambda v: v in TI_VARIANT_TYPES, ["bogus", "layered-product", "Variant", None]),
+    "ti.variant.name":   (_is_str, [None, 5, b"Server"]),
+    "ti.variant.path":   (lambda v: v is None or _is_str(v), [5, ["Packages"], b"Packages"]),
     "ti.image.path":     (_relpath, ["/abs/images/boot.iso"]),
     "ti.stage2.path":    (_relpath, ["/abs/LiveOS/squashfs.img"]),
     "ti.checksum.path":  (_relpath, ["/abs/images/boot.iso"]),
@@ -119,8 +121,7 @@ TABLE = {
 def in_domain(kind, value):
     pred = TABLE[kind][0]
     if pred is None:
-        import productmd.images as pi
-        return value in (pi.SUPPORTED_IMAGE_TYPES if kind == "image.type" else pi.SUPPORTED_IMAGE_FORMATS)
+        return value in (ids.IMAGE_TYPES_DOC if kind == "image.type" else ids.IMAGE_FORMATS_DOC)
     try:
         return bool(pred(value))
     except Exception:                                                  # noqa
